@@ -102,7 +102,7 @@ class LockstepEnv:
             raise E.HarnessMisuse('vector scale')
         scale = float(scale)
         if scale < 0:
-            raise ValueError('scale < 0')
+            raise E.EnvValueError('scale < 0')
         n = int(np.prod(size)) if size is not None else 1
         i, rec = self._next('noise', dist=dist, size=n, scale=scale)
         ev = {'kind': 'noise', 'i': i, 'dist': dist, 'scale': scale, 'size': n, 'x': None, 'y': None, 'coef': 1.0}
